@@ -172,7 +172,7 @@ for fn, src in (('is_822_local', 'src/is_822_local.c'), ('is_5321_local', 'src/i
 add(Job('is_6531_local+rfc20', 'harness/is_6531_local.c', enforce='is_6531_local', loops=True, timeout=2400, reach=3, defines=['-DRFC6531_FOLLOW_RFC20'],
         extra_sources=['src/utf8_decode.c'], expect=['postcondition', 'loop_invariant_base', 'loop_invariant_step', 'loop_decreases', 'assigns'],
         functions=['is_6531_local (RFC6531_FOLLOW_RFC20 build)'], files=['src/is_6531_local.c', 'src/utf8_decode.c'], assumptions=[A1, A9]))
-add(Job('is_6531_local+rfc5322', 'harness/is_6531_local_rfc5322.c', enforce='is_6531_local', loops=True, timeout=1200, reach=3, defines=['-DRFC6531_FOLLOW_RFC5322'],
+add(Job('is_6531_local+rfc5322', 'harness/is_6531_local_rfc5322.c', enforce='is_6531_local', loops=True, timeout=3600, reach=3, defines=['-DRFC6531_FOLLOW_RFC5322'],
         extra_sources=['src/utf8_decode.c'], expect=['postcondition', 'loop_invariant_base', 'loop_invariant_step', 'loop_decreases', 'assigns'],
         functions=['is_6531_local (RFC6531_FOLLOW_RFC5322 build)'], files=['src/is_6531_local.c', 'src/utf8_decode.c'], assumptions=[A1, A9],
         note='covers pure-ASCII local parts only (ghost flag: no character > 127 read so far)'))
